@@ -373,7 +373,66 @@ def r0_name_return(lines, origin, repo, relfile):
     return out, oo, notes
 
 
+def r8_loop_brace(lines, origin, repo, relfile):
+    """while C {  /  for P in E {  /  loop {   ->  body brace on its own line (whitespace only), so
+    that invariants can be spliced between the loop head and its body"""
+    text = '\n'.join(lines)
+    mask = rustscan.code_mask(text)
+    cuts = []
+    for mm in re.finditer(r'\b(while|for|loop)\b', text):
+        p = mm.start()
+        if not mask[p]:
+            continue
+        # must start a statement: preceded (ignoring spaces) by ; { } or line start, or a label / `let mut k = d;`
+        q = p - 1
+        while q >= 0 and text[q] in ' \t':
+            q -= 1
+        if q >= 0 and text[q] not in ';{}\n:':
+            continue
+        if mm.group(1) == 'for' and re.match(r'for\s*<', text[p:]):
+            continue
+        k = mm.end()
+        depth = 0
+        while k < len(text):
+            if mask[k]:
+                c = text[k]
+                if c in '([':
+                    depth += 1
+                elif c in ')]':
+                    depth -= 1
+                elif c == '{' and depth == 0:
+                    break
+                elif c == ';' and depth == 0:
+                    k = -1
+                    break
+            k += 1
+        if k < 0 or k >= len(text):
+            continue
+        ls = text.rfind('\n', 0, k) + 1
+        if text[ls:k].strip():
+            kw_ls = text.rfind('\n', 0, p) + 1
+            ind = re.match(r'[ \t]*', text[kw_ls:]).group(0)
+            cuts.append((k, ind))
+    out_text = text
+    for k, ind in sorted(cuts, reverse=True):
+        out_text = out_text[:k].rstrip(' ') + '\n' + ind + '{' + out_text[k + 1:]
+    out = out_text.split('\n')
+    oo = []
+    k = 0
+    for ln in out:
+        if k < len(lines) and ln.strip() == '{' and lines[k].strip() != '{':
+            oo.append(origin[k - 1] if k > 0 else origin[0])
+            continue
+        oo.append(origin[k] if k < len(origin) else origin[-1])
+        k += 1
+    if k != len(lines):
+        raise RewriteError("R8: origin bookkeeping failed")
+    notes = ["R8 %s: %d loop body brace(s) moved to their own line" % (relfile, len(cuts))] if cuts else []
+    return out, oo, notes
+
+
 RULES = {
+    'R8': r8_loop_brace,
     'R0': r0_name_return,
     'R1': r1_stepby,
     'R2': r2_refpat,
